@@ -115,7 +115,7 @@ theorem washoutOrLag_all (s u T K z0 z1 x y : F) (hT : T ≠ 0) (hf : WashoutOrL
   · have e1 : z1 = 1 := by rw [hf.1]; simp [hK]
     have e0 : z0 = 0 := by rw [hf.2, e1]; ring
     simp only [hK, if_true]
-    have := WashoutOrLag_lag_bypass s u T K z0 z1 x y e0 e1 hT h
+    have := WashoutOrLag_lag_bypass s u T K z0 z1 x y e0 e1 hK hT h
     simpa [hK] using this
   · have e1 : z1 = 0 := by rw [hf.1]; simp [hK]
     have e0 : z0 = 1 := by rw [hf.2, e1]; ring
